@@ -50,7 +50,9 @@ def _worker(job):
         if len(rep.violations) >= 3:
             break          # enough (distinct) counterexamples from this share of the configurations
         kw = {"exclude_pgns": list(entries)} if mode == "exclude" else {"include_pgns": list(entries)}
-        for hist in histories:
+        # lists of numbers only: the first history also through the public binary entry point (decode_tcp)
+        numeric_only = all(isinstance(e, int) for e in entries)
+        for hist, via in [(hh, None) for hh in histories] + ([(histories[0], "tcp")] if numeric_only else []):
             if len(rep.violations) >= 3 or _time.time() > t_stop:
                 break
             def h():
@@ -59,8 +61,8 @@ def _worker(job):
                 ref = R.decoder.NMEA2000Decoder()
                 outs = []
                 for kind, who in hist:
-                    a = feed(filt, w, kind, who)
-                    b = feed(ref, w, kind, who)
+                    a = feed(filt, w, kind, who, via=via)
+                    b = feed(ref, w, kind, who, via=via)
                     outs.append((kind, who, a, b))
                 smap = lambda d: sorted(((k, v.name) for k, v in d.source_to_iso_name.items()), key=lambda kv: str(kv[0]))
                 return outs, len(filt.source_to_iso_name), len(ref.source_to_iso_name), filt, ref
@@ -72,7 +74,7 @@ def _worker(job):
             states += len(paths)
             for pa in paths:
                 def wit(m):
-                    return {"kind": "filter", "mode": mode, "entries": list(entries), "history": [list(x) for x in hist],
+                    return {"kind": "filter", "mode": mode, "entries": list(entries), "history": [list(x) for x in hist], "via": via,
                             "sa": m.eval(w.sa, True).as_long(), "sb": m.eval(w.sb, True).as_long(), "name1": m.eval(w.name1, True).as_long(),
                             "name2": m.eval(w.name2, True).as_long(), "head": m.eval(w.head, True).as_long(), "soc": m.eval(w.soc, True).as_long()}
                 st0, m0 = satisfiable(z3.And(pa.cond(), *w.assume))
@@ -191,6 +193,12 @@ def replay(r):
             return [(99999, bytes(8))]
         if kind in ("fm_furuno", "fm_simnet"):
             return [(P_FMULTI, bytes(fr)) for fr in fm_frames(kind)]
+    def one(dec_, pgn, src, body):
+        if r.get("via") == "tcp":
+            pf = (pgn >> 8) & 0xFF
+            ident = (3 << 26) | (((pgn | 255) if pf < 240 else pgn) << 8) | src
+            return dec_.decode_tcp(bytes([0x80 | len(body)]) + ident.to_bytes(4, "big") + bytes(body) + bytes(8 - len(body)))
+        return dec_._decode(pgn, 3, src, 255, TS, bytes(body)[::-1], b"")
     mode, entries = r["mode"], r["entries"]
     kw = {"exclude_pgns": list(entries)} if mode == "exclude" else {"include_pgns": list(entries)}
     try:
@@ -209,10 +217,10 @@ def replay(r):
         src = r["sa"] if who == "a" else r["sb"]
         for pgn, body in frames(kind):
             try:
-                a = filt._decode(pgn, 3, src, 255, TS, body[::-1], b"")
+                a = one(filt, pgn, src, body)
             except Exception as e:
                 return True, "filtered decoder raised %r" % (e,)
-            b = ref._decode(pgn, 3, src, 255, TS, body[::-1], b"")
+            b = one(ref, pgn, src, body)
             exp = b if (b is not None and permitted(b.PGN, b.id, mode, entries)) else None
             if summ(a) != summ(exp):
                 problems.append("position %d (%s from %s): got %s, expected %s" % (pos, kind, who, "PGN %s" % a.PGN if a else None, "PGN %s" % exp.PGN if exp else None))
